@@ -45,6 +45,16 @@ DEP_POOL = [
 ]
 # same name and version as DEP_POOL[0] but another directory: results must not depend on which one was asked first
 DEP_POOL.insert(6, {"k": "dep", "name": "a", "version": "1.0", "source": {"package": "htmltools", "subdir": "libtest/dep2"}, "script": [{"src": "td2.js"}], "stylesheet": [{"href": "td2.css"}]})
+# directories given without a package name (relative to the current directory / absolute, not canonical), an explicit
+# "package": None, and payloads that are present but empty
+for _d in (
+    {"k": "dep", "name": "r", "version": "1.2", "source": {"subdir": "@rel:libtest/testdep"}, "script": [{"src": "testdep.js"}], "stylesheet": [{"href": "testdep.css"}]},
+    {"k": "dep", "name": "r2", "version": "0.2", "source": {"package": None, "subdir": "@abs:libtest/dep2"}, "script": [{"src": "td2.js"}], "all_files": True},
+    {"k": "dep", "name": "e", "version": "1", "head": []},
+    {"k": "dep", "name": "e2", "version": "1", "head": [{"k": "none"}], "script": [], "meta": []},
+    {"k": "headc", "kids": []},
+):
+    DEP_POOL.insert(len(DEP_POOL) - 1, _d)
 VOID_LEAVES = [
     {"k": "tag", "name": "br", "ws": False, "attrs": [], "kids": []},
     {"k": "tag", "name": "hr", "ws": True, "attrs": [["class_", "sep"]], "kids": []},
@@ -511,7 +521,7 @@ def body_views(case, note):
 
 # ---------------------------------------------------------------- equality
 
-EDITS = ["name", "name-case", "ws", "attr-add", "attr-del", "attr-val", "kid-add", "kid-del", "kid-text", "kid-swap-kind", "dep-field"]
+EDITS = ["name", "name-case", "ws", "attr-add", "attr-del", "attr-val", "kid-add", "kid-del", "kid-text", "kid-swap-kind", "kid-as-markup", "dep-field"]
 
 
 def eq_case():
@@ -586,6 +596,13 @@ def edit(r, kind, n):
         if x["k"] in ("dep", "headc"):
             new = {"k": "text", "s": "swapped"}
         return _replace(r, q, new)
+    if kind == "kid-as-markup":
+        # a child element replaced by its own rendering marked as HTML(): same markup, different structure
+        kids = [(q, x) for q, x in nodes if q and x["k"] == "tag"]
+        if not kids:
+            return None
+        q, x = kids[n % len(kids)]
+        return _replace(r, q, {"k": "html", "s": str(build(x))})
     if kind == "dep-field":
         deps = [(q, x) for q, x in nodes if x["k"] == "dep"]
         if not deps:
@@ -631,9 +648,12 @@ def body_equality(case, note):
         check(a != c, "!= is false for structurally different objects")
     # different kinds
     t = build(r)
-    others = [h.TagList(t), "x", h.HTML("x"), None, 3, build(DEP_POOL[0]), h.HTMLDocument(t)]
+    others = [h.TagList(t), "x", h.HTML("x"), None, 3, build(DEP_POOL[0]), h.HTMLDocument(t), str(t), h.HTML(str(t)), t.get_html_string(), t.render(), [t], (t,), t.children, t.attrs]
     for o in others:
-        check(not (t == o), f"a Tag compares == to a {type(o).__name__}")
+        check(not (t == o) and not (o == t), f"a Tag compares == to a {type(o).__name__}")
+    tl = h.TagList(t, "z")
+    for o in (str(tl), h.HTML(str(tl)), t, h.Tag("x", t, "z"), tl.render()):
+        check(not (tl == o) and not (o == tl), f"a TagList compares == to a {type(o).__name__}")
     d = build(DEP_POOL[0])
     check(d == build(DEP_POOL[0]), "equal dependency definitions are not ==")
     for o in (h.TagList(d), t, "a", h.MetadataNode(), build(DEP_POOL[1])):
